@@ -98,8 +98,17 @@ struct Extra<QXmppPresence> {
     {
         v.push_back({ u"caps"_s, [](QXmppPresence &p) { p.setCapabilityHash(u"sha-1"_s); p.setCapabilityNode(u"https://example.org/client"_s); p.setCapabilityVer(QByteArray::fromHex("0102030405060708090a0b0c0d0e0f1011121314")); } });
         v.push_back({ u"muc"_s, [](QXmppPresence &p) { p.setMucSupported(true); } });
-        v.push_back({ u"photo"_s, [](QXmppPresence &p) { p.setVCardUpdateType(QXmppPresence::VCardUpdateValidPhoto); } });
+        v.push_back({ u"photo"_s, [](QXmppPresence &p) { p.setVCardUpdateType(QXmppPresence::VCardUpdateValidPhoto); p.setPhotoHash(QByteArray::fromHex("0102030405060708090a0b0c0d0e0f1011121314")); } });
         v.push_back({ u"subscribe"_s, [](QXmppPresence &p) { p.setType(QXmppPresence::Subscribe); } });
+    }
+};
+template<>
+struct Extra<QXmppPubSubSubscription> {
+    // <subscription/> is written without a namespace of its own and means different things under pubsub, pubsub#event and pubsub#owner
+    static void add(States<QXmppPubSubSubscription> &v)
+    {
+        for (auto ns : { "http://jabber.org/protocol/pubsub", "http://jabber.org/protocol/pubsub#event", "http://jabber.org/protocol/pubsub#owner" })
+            v.push_back({ u"in-"_s + QString::fromLatin1(ns), [ns](QXmppPubSubSubscription &) { g_nsOverride = QString::fromLatin1(ns); } });
     }
 };
 template<>
